@@ -49,7 +49,8 @@ def ENCODED():
 
 
 def cases(tier, seed):
-    return ["daily/fit", "daily/predict", "billing/fit", "billing/predict", "hourly/fit", "hourly/predict", "daily/persist", "billing/persist"]
+    return ["daily/fit", "daily/predict", "billing/fit", "billing/predict", "hourly/fit", "hourly/predict", "daily/persist", "billing/persist",
+            "daily/persistfit", "billing/persistfit"]
 
 
 FAM = {
@@ -152,6 +153,7 @@ def scenario_fit(fam, cfg, metric):
 
         def _fit(df):
             m.error["CVRMSE"] = metric["cvrmse"]
+            m.model = {}  # no sub-models: fit() may rebuild the stored parameters from it
             m.is_fitted = True
             return m
         m._fit = _fit
@@ -292,7 +294,51 @@ def replay_persist(inp):
     return bad, f"stored {ndq} disqualification(s), ignore={ignore}: {got} (expected {want}); restored {names}"
 
 
-REPLAY = {"fit": replay_fit, "predict": replay_predict, "persist": replay_persist}
+def replay_persistfit(inp):
+    """fit through the REAL DailyModel.fit/_fit (everything before _fit's tail stubbed on the instance, so the real order
+    error -> params -> is_fitted -> poor-fit append is executed), then to_json/from_json: the restored model's gate must
+    give the same verdict as the in-memory one"""
+    import types as _t
+    from opendsm.eemeter.models.daily.parameters import ModelCoefficients
+    fam, ndq, ignore_fit, poor, ignore_predict = inp["fam"], inp["ndq"], inp["ignore_fit"], inp["poor"], inp["ignore_predict"]
+    Model = FAM[fam][0]
+    m = Model()
+    data = pick_data(fam, "baseline", ndq, "US/Pacific")
+    m._initialize_data = lambda md: (md, None)
+    m._combinations = lambda: ["fw-su_sh_wi"]
+    m._components = lambda: ["fw-su_sh_wi"]
+    m._fit_components = lambda: {}
+    cv = 2.0 if poor else 0.5
+    m._get_error_metrics = lambda combo: (0.1, 0.1, 0.1, cv, 0.1)
+    m._best_combination = lambda print_out=False: "fw-su_sh_wi"
+    sub = _t.SimpleNamespace(T_min=0.0, T_max=100.0, T_min_seg=5.0, T_max_seg=95.0, f_unc=1.0,
+                             named_coeffs=ModelCoefficients(model_type="tidd", intercept=10.0))
+    m._final_fit = lambda combo: {"fw-su_sh_wi": sub}
+    try:
+        m.fit(data, ignore_disqualification=ignore_fit)
+    except DataSufficiencyError:
+        return False, "fit refused (nothing to store)"
+    rep = pick_data(fam, "reporting", 0, "US/Pacific")
+
+    def verdict(model):
+        model._predict = lambda *a, **k: SENTINEL
+        try:
+            model.predict(rep, ignore_disqualification=ignore_predict)
+            return "predicts"
+        except DisqualifiedModelError:
+            return "DisqualifiedModelError"
+        except Exception as ex:
+            return type(ex).__name__
+    v1 = verdict(m)
+    m2 = Model.from_json(m.to_json())
+    v2 = verdict(m2)
+    n1, n2 = [w.qualified_name for w in m.disqualification], [w.qualified_name for w in m2.disqualification]
+    want = "DisqualifiedModelError" if ((ndq > 0 or poor) and not ignore_predict) else "predicts"
+    bad = v1 != want or v2 != want or n1 != n2
+    return bad, f"{fam}: {ndq} inherited disqualification(s), poor fit={poor}: in memory {v1} {n1}; after to_json/from_json {v2} {n2}; expected {want}"
+
+
+REPLAY = {"fit": replay_fit, "predict": replay_predict, "persist": replay_persist, "persistfit": replay_persistfit}
 
 
 # ----------------------------------------------------------------- symbolic runs
@@ -303,6 +349,8 @@ def run_case(case: Case, name: str):
         return run_fit(case, fam)
     if what == "predict":
         return run_predict(case, fam)
+    if what == "persistfit":
+        return run_persistfit(case, fam)
     return run_persist(case, fam)
 
 
@@ -405,6 +453,26 @@ def run_predict(case, fam):
             case.regime("unfitted model", not cfg["fitted"])
         if len(case.rep["samples"]) < 2:
             case.sample(dict(cfg=cfg, outcome=r))
+
+
+def run_persistfit(case, fam):
+    """finite scenario space enumerated by solver forks: inherited dq count x poor fit x both override flags"""
+    case.inputs = []
+
+    def run():
+        inp = dict(fam=fam, ndq=F.choose("ndq", [0, 1, 2]), ignore_fit=True, poor=F.choose("poor", [False, True]),
+                   ignore_predict=F.choose("ignore_predict", [False, True]))
+        return inp, replay_persistfit(inp)
+
+    paths = case.explore(run)
+    for p in paths:
+        if p.outcome != "ret":
+            case.rep["harness_errors"].append(f"persistfit scenario raised {p.value!r}")
+            continue
+        inp, (bad, det) = p.value
+        case.prove(p, not bad, "a fitted model's gate verdict and disqualifications are the same after to_json/from_json (fit through the real _fit tail)",
+                   replay=("persistfit", (lambda i: lambda mdl: i)(inp)))
+    case.sample(dict(family=fam, scenarios=len(paths)))
 
 
 def run_persist(case, fam):
